@@ -1,6 +1,6 @@
 from xdsl.context import Context
-from xdsl.dialects import builtin, linalg
-from xdsl.ir import Block
+from xdsl.dialects import arith, builtin, linalg
+from xdsl.ir import Block, SSAValue
 from xdsl.parser import IRDLOperation
 from xdsl.passes import ModulePass
 from xdsl.pattern_rewriter import (
@@ -13,21 +13,41 @@ from xdsl.rewriter import InsertPoint
 
 from snaxc.dialects.kernel import Kernel, Parsable
 
+COMMUTATIVE_OPS = (arith.AddiOp, arith.MuliOp)
+
 
 def check_kernel_equivalence(block_a: Block, block_b: Block) -> bool:
     """
     Verify if two blocks are equivalent to each other,
     that for the same inputs they include the same
-    operations.
+    operations, applied to the same values.
     """
-    if len(block_a.ops) != len(block_b.ops):
+    if len(block_a.ops) != len(block_b.ops) or len(block_a.args) != len(block_b.args):
         return False
 
-    # warning: this is a bit of a naive way of checking equality between
-    # kernels, but should cover all of our purposes for quite some time
+    # map the values of block a to the corresponding values in block b
+    value_map: dict[SSAValue, SSAValue] = {}
+    for arg_a, arg_b in zip(block_a.args, block_b.args, strict=True):
+        if arg_a.type != arg_b.type:
+            return False
+        value_map[arg_a] = arg_b
+
     for op_a, op_b in zip(block_a.ops, block_b.ops, strict=True):
         if type(op_a) is not type(op_b):
             return False
+        if len(op_a.operands) != len(op_b.operands) or len(op_a.results) != len(op_b.results):
+            return False
+        # the operands must be the corresponding values, in any order for commutative operations
+        operands_a = [value_map.get(operand) for operand in op_a.operands]
+        operands_b = list(op_b.operands)
+        if operands_a != operands_b and not (
+            isinstance(op_a, COMMUTATIVE_OPS) and operands_a == list(reversed(operands_b))
+        ):
+            return False
+        for result_a, result_b in zip(op_a.results, op_b.results, strict=True):
+            if result_a.type != result_b.type:
+                return False
+            value_map[result_a] = result_b
 
     return True
 
